@@ -318,6 +318,8 @@ void TasmanianSparseGrid::updateGrid(int depth, TypeDepth type, std::vector<int>
     size_t expected_aw_size = (OneDimensionalMeta::isTypeCurved(type)) ? 2*dims : dims;
     if (not anisotropic_weights.empty() and anisotropic_weights.size() != expected_aw_size) throw std::invalid_argument("ERROR: in updateGrid() anisotropic_weights must be either empty or has size equal to dimenions or twice dimenions based on the type of the update.");
     if (not level_limits.empty() and level_limits.size() != (size_t) dims) throw std::invalid_argument("ERROR: in updateGrid() level_limits must be either empty or must have size equal to the number of dimensions");
+    if (not (isGlobal() or isSequence() or isFourier())) // reject before the level limits are modified
+        throw std::runtime_error("ERROR: an update operation can be performed only on Global, Sequence and Fourier grids.");
     if (not level_limits.empty()) llimits = level_limits; // if level_limits is empty, use the existing llimits (if any)
     if (isGlobal()){
         get<GridGlobal>()->updateGrid(depth, type, anisotropic_weights, llimits);
@@ -877,6 +879,10 @@ void TasmanianSparseGrid::setAnisotropicRefinement(TypeDepth type, int min_growt
     if ((output < -1) || (output >= outs)) throw std::invalid_argument("ERROR: calling setAnisotropicRefinement() with invalid output");
     if ((!level_limits.empty()) && (level_limits.size() != (size_t) dims)) throw std::invalid_argument("ERROR: setAnisotropicRefinement() requires level_limits with either 0 or dimenions entries");
 
+    if (isGlobal() and OneDimensionalMeta::isNonNested(get<GridGlobal>()->getRule())) // reject before the level limits are modified
+        throw std::runtime_error("ERROR: setAnisotropicRefinement() called for a global grid with non-nested rule");
+    if (not (isSequence() or isGlobal() or isFourier()))
+        throw std::runtime_error("ERROR: setAnisotropicRefinement() called for a grid that is neither Sequence, nor Global with a sequence rule, nor Fourier");
     if (!level_limits.empty()) llimits = level_limits;
     if (isSequence()){
         get<GridSequence>()->setAnisotropicRefinement(type, min_growth, output, llimits);
@@ -930,6 +936,10 @@ void TasmanianSparseGrid::setSurplusRefinement(double tolerance, int output, con
     if (tolerance < 0.0) throw std::invalid_argument("ERROR: calling setSurplusRefinement() with invalid tolerance (must be non-negative)");
     if ((!level_limits.empty()) && (level_limits.size() != (size_t) dims)) throw std::invalid_argument("ERROR: setSurplusRefinement() requires level_limits with either 0 or dimenions entries");
 
+    if (isGlobal() and not OneDimensionalMeta::isSequence(get<GridGlobal>()->getRule())) // reject before the level limits are modified
+        throw std::runtime_error("ERROR: setSurplusRefinement called for a Global grid with non-sequence rule");
+    if (not (isSequence() or isGlobal()))
+        throw std::runtime_error("ERROR: setSurplusRefinement(double, int) called for a grid that is neither Sequence nor Global with a sequence rule");
     if (!level_limits.empty()) llimits = level_limits;
     if (isSequence()){
         get<GridSequence>()->setSurplusRefinement(tolerance, output, llimits);
